@@ -19,6 +19,14 @@ import itertools
 from tools.vlib import sx, MAXU
 
 THEOREMS_FILE = "C12"
+TRUSTED = ["harness/src/c12.rs `Erased<'a, E>`: an unsafe impl of MatrixRef / MatrixMut / NoInteriorMutability by pure "
+           "delegation to a boxed trait object, needed to build stacks of views whose depth is only known at run time"]
+ASSUMPTIONS = [
+    "one model function (`try_get`) stands for the shared, mutable and unchecked accessors, which are separate code paths: "
+    "their agreement is cross-checked by the harness on every probe (unchecked forms only on present cells, hooks on)",
+    "MatrixMap is crate private; it is exercised only through Display for RecordMatrix over the same stack of views",
+    "partition results are compared through the parts' sizes, cells and a write of a distinct value through every part",
+]
 
 VALS = [0, 1, 2, 3, 4, 5, MAXU]
 PROBES = [[r, c] for r in range(6) for c in range(6)] + [[MAXU, 0], [0, MAXU], [MAXU, MAXU], [MAXU - 1, 1], [2 ** 63, 0]]
